@@ -89,6 +89,25 @@ harnesses! {
         delay_checks!(r, st, tau, n, 3, newr, 4.0, "C14.delay[sinc_types]");
         forget(r);
     }
+    // recorded finding F8, concrete witness at the original ratio
+    #[kani::unwind(8)]
+    fn c14_sfo_kf(nd) {
+        probe::reset_flags();
+        let mut r = SincFixedOut::<f64>::new_with_interpolator(1.0, 2.0, SincInterpolationType::Linear, probe::boxed64(8, 2), 3, 1).unwrap();
+        let newr = 1.0f64;
+        let mut st = Stream { supplied: 0, produced: 0, last: 0.0, have_last: false };
+        let mut tau = [0.0f64; 3];
+        let (ok, _, n) = call_line::<_, _, 14, 3>(nd, &mut r, &mut st, &mut tau);
+        check!(ok, "C03.ok[base]");
+        st.produced += n;
+        let (ok, _, n) = call_line::<_, _, 14, 3>(nd, &mut r, &mut st, &mut tau);
+        check!(ok, "C03.ok[base]");
+        // second call: windows on line data. The probe returns the tap at index + len/2 plus the
+        // sub-filter fraction; the real table is centred one tap earlier (see DESIGN C14), which is
+        // inside the property's +-(max(1,ratio)+1) tolerance.
+        delay_checks!(r, st, tau, n, 3, newr, 4.0, "C14.delay[sinc_types]");
+        forget(r);
+    }
     // vacuity witness (must FAIL)
     #[kani::unwind(8)]
     fn c14_witness(nd) {
